@@ -994,7 +994,13 @@ fn cross_block_faults(ctx: &Ctx, rng: &mut Rng, s: &SizeInfo, faults: &mut Vec<F
         }
     }
     // the crafted part in one block of the group
-    match rng.below(3) {
+    match rng.below(4) {
+        3 => {
+            // consistent with the shared positions for the first t+v (or more) syndromes, then deviating
+            let j = rng.range((t + v).min(s.k - 1), s.k - 1);
+            let roots: Vec<usize> = (1..=j).collect();
+            aligned_faults(ctx, rng, s, target, &roots, faults);
+        }
         0 => {
             let a = (2 * v).min(s.k - 2).max(1);
             let lo = if rng.chance(1, 2) && t > a { t } else { rng.range(a + 1, s.k - 1).max(a + 1) };
@@ -1278,11 +1284,29 @@ fn replace_fault(ctx: &Ctx, rng: &mut Rng, faults: &mut Vec<Fault>) {
             // optionally a few deviating fixed modules
             let tpl = crate::catalogue::fixed_template(s);
             let dens = rng.range(0, 100);
+            // data modules: random with some density, or structured (stripes, checkerboard, a single row or
+            // column of the minority colour, a single module)
+            let structure = rng.below(12);
+            let line = rng.below(h.max(w));
+            let period = rng.range(1, 4);
+            let base = rng.bit();
             let mut bits: Vec<bool> = tpl
                 .iter()
-                .map(|t| match t {
+                .enumerate()
+                .map(|(i, t)| match t {
                     Some(d) => *d,
-                    None => rng.below(100) < dens,
+                    None => {
+                        let (r, c) = (i / w, i % w);
+                        match structure {
+                            0 => (r / period) % 2 == 0,
+                            1 => (c / period) % 2 == 0,
+                            2 => (r + c) % 2 == 0,
+                            3 => (r == line) != base,
+                            4 => (c == line) != base,
+                            5 => (r == line && c == (line * 7 + 3) % w) != base,
+                            _ => rng.below(100) < dens,
+                        }
+                    }
                 })
                 .collect();
             if mode >= 4 {
